@@ -426,8 +426,10 @@ package generator
 // checked (C09: absent properties take their default; C05/C06: absent optional
 // values are never checked against bounds).
 //@ func (*schemaGenerator).generateDeclaredType
-//@   props C09 C05 C06 C17
+//@   props C09 C05 C06 C17 C16
 //@   calls-ordered defaultValidator before structFieldValidators
+//@   guarded structFieldValidators unless-field OnlyModels
+//@   guarded generateUnmarshaler unless-field OnlyModels
 
 // ---- which JSON type a schema node has (determineTypeName) -------------------
 // One listed type: that type. Two listed types of which exactly one is "null":
